@@ -87,6 +87,38 @@ def with_frame(inner, pad=0):
     return a
 
 
+def literal_pad(arr, pad):
+    """the framed image put inside a larger black canvas: the white frame is then inside the picture, not on its border"""
+    a = np.zeros((arr.shape[0] + 2 * pad, arr.shape[1] + 2 * pad), dtype=arr.dtype)
+    a[pad:pad + arr.shape[0], pad:pad + arr.shape[1]] = arr
+    return a
+
+
+def outline_survives_area_filter(arr):
+    """known finding D26, decided from the image alone (OpenCV, not forsys): with the frame inside the picture the region between frame and
+    tissue and the tissue's own outline are traced as two extra contours; the parser drops contours of more than five times the trimmed mean
+    area, which the outline of a tissue of few cells is not"""
+    import cv2
+    cs, hier = cv2.findContours(np.ascontiguousarray(arr[1:-1, 1:-1]), cv2.RETR_TREE, cv2.CHAIN_APPROX_NONE)
+    if hier is None or len(cs) < 4:
+        return False
+    hier = hier[0]
+    areas = []
+    for c_ in cs[1:]:
+        pts = [(int(p_[0]), int(p_[1])) for p_ in np.vstack(c_).reshape(-1, 2)]
+        areas.append(abs(sum(pts[k][0] * pts[k - 1][1] - pts[k][1] * pts[k - 1][0] for k in range(len(pts)))))      # twice the area, exact
+    n, rest = len(areas), sum(areas) - max(areas)
+
+    def depth(i):
+        d = 0
+        while hier[i][3] >= 0:
+            i, d = hier[i][3], d + 1
+        return d
+    # an outer boundary of a white component nested inside another one (even depth >= 2: the tissue inside the frame) that the exact
+    # integer form of 'area < 5 * mean of all areas but the largest' does not drop (<=: on an exact tie the float comparison may go either way)
+    return any(depth(i) >= 2 and depth(i) % 2 == 0 and areas[i - 1] * (n - 1) <= 5 * rest for i in range(1, len(cs)))
+
+
 def expected_lattice(nx, ny, kind):
     corners, cells, sites = gen.lattice_cells(nx, ny, kind)
     return expected_of_spec(gen.build_spec(corners, cells, sites, npts=0))
@@ -160,13 +192,43 @@ def save(arr, name):
     return path
 
 
+def filter_case(res, exprs, arr, path, mirror, label, sname, lit):
+    """correspondence of the large-area filter: the contours OpenCV returns for this image (traced here exactly as the parser does) through
+    Model/Skeleton.v parse_contours, against the contours the parser kept"""
+    import cv2
+    nf = sum(1 for _, rp_ in exprs if rp_.get("what") == "area filter")
+    nl = sum(1 for _, rp_ in exprs if rp_.get("what") == "area filter" and rp_.get("literal_pad"))
+    if nf >= 14 or (not lit and nf - nl >= 4):
+        return
+    allc, _ = cv2.findContours(np.ascontiguousarray(arr[1:-1, 1:-1]), cv2.RETR_TREE, cv2.CHAIN_APPROX_NONE)
+    allc = [np.vstack(p_).squeeze().reshape(-1, 2) for p_ in allc]
+    if sum(len(c_) for c_ in allc) >= 6000:
+        return
+    try:
+        with impl.quiet():
+            sk = impl.fs.skeleton.Skeleton(path, mirror_y=mirror)
+        kept = [np.array(c_).reshape(-1, 2) for c_ in sk.contours]
+    except Exception:  # noqa  (the judged parse reports it)
+        return
+    al = "[" + "; ".join("[" + "; ".join(f"({int(p_[0])}, {int(p_[1])})" for p_ in c_) + "]" for c_ in allc) + "]"
+    # (with mirror_y nothing is reflected before create_lattice: the stored contours are still in image coordinates)
+    sig = "[" + "; ".join(f"[{len(c_)}; {int(c_[0][0])}; {int(c_[0][1])}]" for c_ in kept) + "]"
+    msig = "map (fun c => [Z.of_nat (length c); fst (hd (0, 0) c); snd (hd (0, 0) c)]) (parse_contours all)"
+    exprs.append((f"let all := {al} in area_tie (tl all) || listlistZ_eqb ({msig}) {sig}",
+                  {"label": label, "symmetry": sname, "literal_pad": lit, "what": "area filter"}))
+    res.count("area-filter correspondence" + (" (filter active)" if len(kept) < len(allc) - 1 else ""))
+
+
 def check_image(res, inner, expected, rng, exprs, label, syms, ne_match=False):
     base = None
     for sname, fsym in syms:
-        for pad, mirror in ((0, False), (int(rng.integers(1, 9)), False), (0, True)):
+        for pad, mirror, lit in ((0, False, 0), (int(rng.integers(1, 9)), False, 0), (0, True, 0), (int(rng.integers(0, 4)), False, int(rng.integers(1, 12)))):
             ne = int(rng.integers(3, 10))
             arr = with_frame(np.ascontiguousarray(fsym(inner)), pad)
-            path = save(arr, f"{label.replace('/', '_')}_{sname}_{pad}_{int(mirror)}.tif")
+            if lit:
+                # the framed image as it is, padded literally (the frame ends up inside the picture)
+                arr = literal_pad(arr, lit)
+            path = save(arr, f"{label.replace('/', '_')}_{sname}_{pad}_{int(mirror)}_{lit}.tif")
             if ne_match:
                 # ne equal to the number of vertices of one of the parsed interfaces (the boundary case of 'at most ne segments')
                 try:
@@ -179,13 +241,29 @@ def check_image(res, inner, expected, rng, exprs, label, syms, ne_match=False):
                         res.count("ne equals the length of an interface")
                 except Exception:  # noqa  (the judged parse below reports it)
                     pass
-            replay = {"label": label, "symmetry": sname, "pad": pad, "mirror_y": mirror, "ne": ne, "image_rows": ["".join("#" if x else "." for x in row) for row in arr[:80, :120]]}
+            replay = {"label": label, "symmetry": sname, "pad": pad, "literal_pad": lit, "mirror_y": mirror, "ne": ne,
+                      "image_rows": ["".join("#" if x else "." for x in row) for row in arr[:80, :120]]}
+            d26 = bool(lit) and outline_survives_area_filter(arr)
+            if lit:
+                res.count("framed image padded literally (frame inside the picture)" + (", outline below the area filter (D26)" if d26 else ""))
+            filter_case(res, exprs, arr, path, mirror, label, sname, lit)
             try:
                 got, contours, raw = observe(path, mirror, ne)
             except Exception as ex:  # noqa
-                res.fail("oracle", f"{label} [{sname}, pad {pad}, mirror_y {mirror}, ne {ne}]: pipeline raised {type(ex).__name__}: {str(ex)[:60]}", replay)
+                if d26:
+                    res.fail("oracle", f"{label} [{sname}, frame inside the picture by {lit} pixels]: pipeline raised {type(ex).__name__}: the outline of the tissue is "
+                             "kept as a cell because it is below five times the trimmed mean area", replay, tag="D26-outline-below-area-filter")
+                else:
+                    res.fail("oracle", f"{label} [{sname}, pad {pad}, literal pad {lit}, mirror_y {mirror}, ne {ne}]: pipeline raised {type(ex).__name__}: {str(ex)[:60]}", replay)
                 continue
-            res.case((label, sname, pad, mirror, ne), nontrivial=got["cells"] >= 4)
+            if d26:
+                # the outline is traced as one more cell: the topology is within known finding D26 whatever it is
+                key26 = {k: got[k] for k in ("cells", "border", "junctions", "internal", "degrees")}
+                if base is not None and key26 != base:
+                    res.fail("oracle", f"{label} [{sname}, frame inside the picture by {lit} pixels]: topology differs from the unpadded image: the outline of the "
+                             "tissue is kept as a cell because it is below five times the trimmed mean area", replay, tag="D26-outline-below-area-filter")
+                continue
+            res.case((label, sname, pad, lit, mirror, ne), nontrivial=got["cells"] >= 4)
             res.count(f"symmetry={sname}")
             if got.get("d7"):
                 res.fail("oracle", f"{label} [{sname}]: parsing followed by the default resampling fails on one-pixel artefact edges next to a junction: {got['d7']}",
@@ -196,15 +274,15 @@ def check_image(res, inner, expected, rng, exprs, label, syms, ne_match=False):
             cmpkeys = [k for k in key if not (k == "junctions" and label.startswith("brick"))]   # an axis-aligned T-junction is traced as a small triangle
             if expected is not None and any(key[k] != expected[k] for k in cmpkeys):
                 diff = {k: (key[k], expected[k]) for k in cmpkeys if key[k] != expected[k]}
-                res.fail("oracle", f"{label} [{sname}, pad {pad}, mirror_y {mirror}, ne {ne}]: parsed topology differs from the tissue's (got, expected): {str(diff)[:200]}", replay)
+                res.fail("oracle", f"{label} [{sname}, pad {pad}, literal pad {lit}, mirror_y {mirror}, ne {ne}]: parsed topology differs from the tissue's (got, expected): {str(diff)[:200]}", replay)
             if base is None:
                 base = key
             elif key != base:
                 diff = {k: (key[k], base[k]) for k in key if key[k] != base[k]}
-                res.fail("oracle", f"{label}: topology under {sname} / pad {pad} / mirror_y {mirror} differs from the unchanged image: {str(diff)[:200]}", replay)
-            res.sample({"label": label, "symmetry": sname, "pad": pad, "mirror_y": mirror, "ne": ne, **{k: key[k] for k in ("cells", "border", "junctions", "internal")}})
+                res.fail("oracle", f"{label}: topology under {sname} / pad {pad} / literal pad {lit} / mirror_y {mirror} differs from the unchanged image: {str(diff)[:200]}", replay)
+            res.sample({"label": label, "symmetry": sname, "pad": pad, "literal_pad": lit, "mirror_y": mirror, "ne": ne, **{k: key[k] for k in ("cells", "border", "junctions", "internal")}})
             # correspondence of the post-contour logic: vertex interning by pixel position, one cell per contour
-            if len(exprs) < 12 and not mirror and sum(len(c_) for c_ in contours) < 3000:
+            if sum(1 for _, rp_ in exprs if rp_.get("what") != "area filter") < 12 and not mirror and not lit and sum(len(c_) for c_ in contours) < 3000:
                 cl = "[" + "; ".join("[" + "; ".join(f"({int(p[0])}, {int(p[1])})" for p in c_) + "]" for c_ in contours) + "]"
                 cyc = f" && listlistZ_eqb (sk_cells st) {C.zlistlist(raw['cycles'])}" if raw["untouched"] else ""
                 exprs.append((f"let st := lattice {cl} in (length (sk_vertices st) =? {raw['vertices']})%nat && "
@@ -215,7 +293,7 @@ def run(res, tier, seed):
     rng = np.random.default_rng(seed)
     exprs = []
     syms_quick = [SYMS[0], SYMS[int(rng.integers(1, 8))]]
-    shapes = [(2, 2, "square"), (3, 3, "square"), (2, 2, "hex"), (3, 3, "hex")] if tier == "quick" else \
+    shapes = [(2, 2, "square"), (3, 3, "square"), (2, 2, "hex"), (3, 3, "hex"), (4, 3, "square"), (4, 4, "hex")] if tier == "quick" else \
         [(2, 2, "square"), (1, 4, "square"), (3, 3, "square"), (5, 4, "square"), (7, 6, "square"), (2, 2, "hex"), (3, 2, "hex"), (3, 3, "hex"), (5, 4, "hex"), (7, 8, "hex")]
     for nx, ny, kind in shapes:
         px = int(rng.integers(35, 91)) if tier != "quick" else int(rng.integers(35, 50))
@@ -262,6 +340,27 @@ def replay(res, obj):
     if "lattice" in inp:
         nx, ny, kind, px = inp["lattice"]
         check_image(res, lattice_image(nx, ny, kind, px), expected_lattice(nx, ny, kind), np.random.default_rng(0), [], f"{kind}{nx}x{ny}", [SYMS[0]])
+        return
+    if "shipped" in inp:
+        # a shipped skeleton as it is (frame on its border) against the same image inside a larger black canvas
+        a = np.array(Image.open(os.path.join(impl.REPO, inp["shipped"])).convert("L"))
+        lit, ne = int(inp.get("literal_pad", 3)), int(inp.get("ne", 5))
+        ref, _, _ = observe(save(a, "replay_ref.tif"), False, ne)
+        arr = literal_pad(a, lit)
+        rp = dict(inp)
+        res.case(("replay", inp["shipped"], lit, ne), True)
+        d26 = outline_survives_area_filter(arr)
+        tag = {"tag": "D26-outline-below-area-filter"} if d26 else {}
+        try:
+            got, _, _ = observe(save(arr, "replay_lit.tif"), False, ne)
+        except Exception as ex:  # noqa
+            res.fail("oracle", f"{inp['shipped']} with the frame inside the picture by {lit} pixels: pipeline raised {type(ex).__name__}" +
+                     (": the outline of the tissue is kept as a cell because it is below five times the trimmed mean area" if d26 else ""), rp, **tag)
+            return
+        keys = ("cells", "border", "junctions", "internal", "degrees")
+        if any(got[k] != ref[k] for k in keys):
+            res.fail("oracle", f"{inp['shipped']} with the frame inside the picture by {lit} pixels: topology differs from the unpadded image: "
+                     f"{ {k: (got[k], ref[k]) for k in keys if got[k] != ref[k]} }", rp, **tag)
         return
     res.notes.append("skeleton replays store the first 80x120 pixels of the image for inspection; re-run with the same VERIF_SEED to reproduce")
     res.case(("replay",), True)
